@@ -29,7 +29,7 @@ ASSUMPTIONS = [
     "fixed point is not asserted for includeEmptyIntervals=False when the input carries explicitly empty-labelled entries",
 ]
 REQUIRED_CLASSES = ["roundtrip:label_quote", "roundtrip:label_newline", "roundtrip:time_tiny", "roundtrip:time_near_integer",
-                    "roundtrip:point_label_quote", "roundtrip:format_token"]
+                    "roundtrip:point_label_quote"]
 
 
 def classify(spec):
